@@ -26,7 +26,7 @@ ASSUMPTIONS = [
     'Rayleigh and Mie components are checked for proportionality to abundance / against C19, not against an independent cross-section',
     'H- (HydrogenIon) is generated with constant H and e- abundances: its absorption law is outside this property and is not judged; the product rule, order independence, single component and proportionality to the electron abundance are',
 ]
-REQUIRED = {'opacity:ktables': 0.1, 'has-hminus': 0.1, 'probe:contrib-first': 0.08, 'ncontrib>=2': 0.5, 'multi-component': 0.4, 'zero-species': 0.15, 'probe:fresh': 0.1,
+REQUIRED = {'opacity:ktables': 0.06, 'has-hminus': 0.1, 'probe:contrib-first': 0.08, 'ncontrib>=2': 0.5, 'multi-component': 0.4, 'zero-species': 0.15, 'probe:fresh': 0.1,
             'probe:subgrid': 0.1, 'probe:param-change': 0.1}
 POOL = ['Absorption', 'CIA', 'Rayleigh', 'SimpleClouds', 'FlatMie', 'LeeMie', 'HydrogenIon']
 
@@ -39,14 +39,16 @@ def _case(draw):
     if 'Absorption' not in order and draw(st.booleans()):
         order = ['Absorption'] + list(order)
     zero = draw(st.sampled_from([False, False, True]))
-    mie = {'flat_mix': 10.0 ** draw(st.floats(-30, -22)), 'flat_lo': draw(st.floats(0.05, 0.45)),
+    mie = {'flat_mix': 10.0 ** draw(st.floats(-27, -21)), 'flat_lo': draw(st.floats(0.05, 0.45)),
            'flat_hi': draw(st.floats(0.55, 0.95)),
            'lee_radius': draw(st.floats(0.01, 5.0)), 'lee_q': draw(st.floats(1.0, 100.0)),
-           'lee_mix': 10.0 ** draw(st.floats(-18, -8))}
+           'lee_mix': 10.0 ** draw(st.floats(-14, -6))}
     w = draw(S.world(layers=(2, 25), nwn=(2, 10), extras=('CIA', 'SimpleClouds'),
                      mags=['mixed', 'mixed', 'transparent', 'saturated']))
     w['extras'] = ['CIA', 'SimpleClouds']
-    w['ktables'] = draw(st.sampled_from([False, True, False]))
+    w['ktables'] = draw(st.sampled_from([True, False]))
+    if draw(st.booleans()):
+        w['wn0'] = w['wn0'] * 6.0       # towards the visible, where Rayleigh scattering and hazes carry real optical depth
     # H- needs atomic hydrogen and free electrons in the mixture
     w['hminus'] = {'H': draw(st.floats(-4.0, -1.5)), 'e': draw(st.floats(-9.0, -4.0))} if 'HydrogenIon' in order else None
     return {'world': w, 'order': list(order), 'order2': draw(S.perm(list(order))), 'zero': zero,
